@@ -366,6 +366,8 @@ fn c04_hp_publish_q2_window_full() {
     // a retransmission of a pending one is still recognised
     let r = data.handle_packet(&mut rt, inbound(QoS::ExactlyOnce, Some(103)));
     assert!(matches!(r, Ok(false)), "C04: duplicate suppression works with a full window");
+    assert!(peek_control(&data.outbound, 1) == Some(ControlAction::PubRec { packet_id: 103, reason: ReasonCode::Success }), "C04: the retransmission of a pending message is acknowledged with PUBREC(success) also when the window is full");
+    assert!(data.pending_server_packet_ids.len() == 8 && data.pending_server_packet_ids.contains(&103));
 }
 
 // @harness props=C14,C11,C04 tier=quick layer=L2
